@@ -1044,11 +1044,13 @@ pub fn main(args: &[String]) -> i32 {
     };
     let findings: Mutex<Vec<Finding>> = Mutex::new(vec![]);
     let dropped = AtomicU64::new(0);
+    let retries = AtomicU64::new(0);
     let next = AtomicU64::new(0);
     std::thread::scope(|sc| {
         for th in 0..threads {
             let (g, paths, stats, findings, next, engine, scratch) = (&g, &paths, &stats, &findings, &next, &engine, &scratch);
             let dropped = &dropped;
+            let retries = &retries;
             sc.spawn(move || {
                 let rt = tokio::runtime::Builder::new_current_thread().enable_all().build().unwrap();
                 loop {
@@ -1059,7 +1061,23 @@ pub fn main(args: &[String]) -> i32 {
                     let p: Vec<&Edge> = paths[k].iter().map(|(s, i)| &g.ops[*s][*i]).collect();
                     let mut out = vec![];
                     if engine == "gated" {
-                        run_gated(g, &rt, &p, stats, &mut out);
+                        // a divergence can be a scheduling race between the harness and the IO thread
+                        // (e.g. a wake-up that is consumed later than expected): re-execute the
+                        // sequence; only a divergence that persists is reported
+                        for attempt in 0..3 {
+                            out.clear();
+                            run_gated(g, &rt, &p, stats, &mut out);
+                            if !out.iter().any(|f| f.kind == "divergence") {
+                                break;
+                            }
+                            if attempt < 2 {
+                                retries.fetch_add(1, Ordering::Relaxed);
+                                stats.paths.fetch_sub(1, Ordering::Relaxed);
+                                if p.iter().any(|e| matches!(e.op, Op::Conflict { .. } | Op::Purge { .. } | Op::Resetappend { .. })) {
+                                    stats.nontrivial.fetch_sub(1, Ordering::Relaxed);
+                                }
+                            }
+                        }
                     } else {
                         run_engine(g, &rt, &p, engine, &scratch.join(format!("{engine}-t{th}")), stats, &mut out);
                     }
@@ -1088,6 +1106,7 @@ pub fn main(args: &[String]) -> i32 {
         "gate_calls": stats.gate_calls.load(Ordering::Relaxed),
         "nontrivial": stats.nontrivial.load(Ordering::Relaxed),
         "findings_dropped": dropped.load(Ordering::Relaxed),
+        "retries_after_divergence": retries.load(Ordering::Relaxed),
         "samples": samples,
         "findings": *findings.lock().unwrap(),
     });
